@@ -2,3 +2,4 @@ import UmapModel.Scalar
 import UmapModel.Knn
 import UmapModel.Graph
 import UmapModel.Relations
+import UmapModel.Api
